@@ -32,7 +32,7 @@ refs = "\n".join(rows)
 for tag, body in (("SEEDS", seeds), ("REFACTORS", refs)):
     pat = re.compile(rf"<!-- {tag}:BEGIN -->.*?<!-- {tag}:END -->", re.S)
     if pat.search(d):
-        d = pat.sub(f"<!-- {tag}:BEGIN -->\n{body}\n<!-- {tag}:END -->", d)
+        d = pat.sub(lambda _m: f"<!-- {tag}:BEGIN -->\n{body}\n<!-- {tag}:END -->", d)
     else:
         print(f"marker {tag} not found")
 (VERIF / "DESIGN.md").write_text(d)
